@@ -34,6 +34,18 @@ fn check_case(prog: &T, env: &T, flags: ClvmFlags, sweep_cap: u64, acc: &mut Acc
         }
         if !base.ok {
             acc.inc("fails_unlimited");
+            // "0 means unlimited" and upward closure: a program that runs out of cost with NO budget must not succeed
+            // under any finite budget
+            if base.err.contains("cost exceeded") {
+                for b in [1u64 << 20, 1 << 40, 1 << 62, (1 << 63) - 1] {
+                    let o = l.run_flags(flags, b);
+                    acc.inc("runs");
+                    if o.ok {
+                        acc.violation(canon(b), format!("[{space}] succeeds under the finite budget {b} ({}) but fails with 'cost exceeded' when the budget is 0 (unlimited)", o.brief()));
+                        break;
+                    }
+                }
+            }
             return;
         }
         acc.inc("programs_succeeding");
